@@ -77,6 +77,12 @@ def diff_attrs(a0, a1):
 def attr_case(ck, I, rng, t, cases, metas):
     from astropy.wcs import WCS
     g = G.gen_fits_geom(rng, t)
+    if t % 5 == 2:
+        # reference pixel off the detector (chips of a mosaic sharing one CRPIX): still a valid celestial WCS
+        g = dict(g)
+        nx_, ny_ = g['shape']
+        g['crpix'] = [rng.choice([-60.5, float(nx_) + 52.0, g['crpix'][0]]), rng.choice([float(ny_) + 30.25, -17.0])]
+        ck.count('crpix_off_detector', True)
     w = G.build_fits_wcs(I, g)
     extra = []
     if t % 3 == 0:
